@@ -418,7 +418,19 @@ impl<T> PooledVec<T> {
     /// Create a new pooled vector
     pub fn new() -> Result<Self> {
         let element_size = std::mem::size_of::<T>();
+        if element_size == 0 {
+            return Err(ZiporaError::invalid_data(
+                "PooledVec does not support zero-sized types",
+            ));
+        }
         let pool = GLOBAL_POOLS.get_pool_for_size(element_size).clone();
+        if std::mem::align_of::<T>() > pool.config().alignment
+            || element_size > pool.config().chunk_size
+        {
+            return Err(ZiporaError::invalid_data(
+                "element type does not fit the pool's chunk size / alignment",
+            ));
+        }
 
         let chunk = pool.allocate()?;
         let capacity = pool.config().chunk_size / element_size;
